@@ -1,6 +1,7 @@
 """Hypothesis strategies for simulated sessions: boards with scripted legal auctions and plays,
 client formatting, arrival order and thread schedules (all drawn, all JSON-able)."""
 from hypothesis import strategies as st
+from vf.gen.perm import permutations
 from vf.model import auction as A, play as P
 from vf.props import _auction as AU
 from vf.props import _play as PL
@@ -67,5 +68,5 @@ def schedule(allow_sequential=True):
 @st.composite
 def scenario(draw, min_boards=1, max_boards=3, play_prob=3):
     boards = draw(st.lists(board(play_prob), min_size=min_boards, max_size=max_boards))
-    return {'boards': boards, 'teams': [draw(TEAM), draw(TEAM)], 'arrival': draw(st.permutations([0, 1, 2, 3])),
+    return {'boards': boards, 'teams': [draw(TEAM), draw(TEAM)], 'arrival': draw(permutations([0, 1, 2, 3])),
             'fmt': draw(fmt()), 'split': draw(st.one_of(st.none(), st.none(), st.lists(st.integers(1, 7), min_size=1, max_size=5)))}
